@@ -45,6 +45,8 @@ def lemmas(E):
     return out
 
 
+BOUNDED = [("c28.replay_reads", "prefetch / readv programs against a real server with arbitrary short reads (bounded stand-in "
+            "for the server assumption and the thread interplay; thorough tier only)", "thorough")]
 CLAIMED = True
 LEVEL_TEXT = ("Proof on the real AST with the remote file as a ghost byte string FILE and the prefetch buffer as an abstract map "
               "whose operations carry the data-structure invariant 'every entry holds FILE's bytes at its own key' (stores "
